@@ -835,13 +835,28 @@ Definition S_reachable_mono : Prop :=
 (* signal objects co-owned by functor copies (OGShare / OGRelease): the object is destroyed at the end
    of the operation in which the program has released it and the last owning functor copy has gone,
    and not before; between operations a released signal object is alive only while some live functor
-   copy owns it *)
+   copy owns it.  The keys from 4000 on name connection objects, so the signal objects the table can name
+   are the g < 2000 (OGShare takes g < 1000); without the bound both statements are false
+   (SigShared.v, shared_signal_any_key_false) *)
 Definition S_shared_signal_lifetime_history : Prop :=
   forall p fuel st o st1 st2 g, reachable p fuel st -> after_op p fuel o st st1 ->
-    gc_shared p st1 = Ok st2 ->
+    gc_shared p st1 = Ok st2 -> g < 2000 ->
     (live_sig g st1 <> None -> live_sig g st2 = None -> is_released (sig_key g) st1 = true) /\
     (live_sig g st2 <> None -> is_released (sig_key g) st2 = true -> 0 < owner_count p (sig_key g) st2).
 
 Definition S_no_orphan_signal_at_rest : Prop :=
-  forall p fuel st g, reachable p fuel st ->
+  forall p fuel st g, reachable p fuel st -> g < 2000 ->
     live_sig g st <> None -> is_released (sig_key g) st = true -> 0 < owner_count p (sig_key g) st.
+
+(* connection objects co-owned by functor copies (OCShare / OCRelease; the one-shot idiom: a handler
+   holding a shared_ptr to its own sigc::connection): the object is destroyed at the end of the operation
+   in which the program has released it and the last owning functor copy has gone, and not before *)
+Definition S_shared_connection_lifetime_history : Prop :=
+  forall p fuel st o st1 st2 c, reachable p fuel st -> after_op p fuel o st st1 ->
+    gc_shared p st1 = Ok st2 ->
+    (get_connptr (WC c) st1 <> None -> get_connptr (WC c) st2 = None -> is_released (conn_key c) st1 = true) /\
+    (get_connptr (WC c) st2 <> None -> is_released (conn_key c) st2 = true -> 0 < owner_count p (conn_key c) st2).
+
+Definition S_no_orphan_connection_at_rest : Prop :=
+  forall p fuel st c, reachable p fuel st ->
+    get_connptr (WC c) st <> None -> is_released (conn_key c) st = true -> 0 < owner_count p (conn_key c) st.
